@@ -178,6 +178,35 @@ def dechunk_mutated(shape: int, kind: int, j: int, v: int, focus: int, cut: int,
         return orc.result()
 
 
+STREAM_TOK = (b'', b'\r\n', b'\r', b'\n', b'0', b'1', b';', b'-', b'x')
+
+
+def dechunk_tokens(t0: int, t1: int, t2: int, t3: int, t4: int, focus: int) -> str:
+    """
+    Byte strings composed of <= 5 tokens from ('', CRLF, CR, LF, '0', '1', ';', '-', 'x') as chunked body.
+    pre: 0 <= t0 < 9
+    pre: 0 <= t1 < 9
+    pre: 0 <= t2 < 9
+    pre: 0 <= t3 < 9
+    pre: 0 <= t4 < 9
+    pre: 0 <= focus < 3
+    post: __return__ == 'ok'
+    """
+    data = pick(t0, STREAM_TOK) + pick(t1, STREAM_TOK) + pick(t2, STREAM_TOK) + pick(t3, STREAM_TOK) + pick(t4, STREAM_TOK)
+    focus = pick(focus, FOCI)
+    with untraced():
+        orc = Oracle()
+        try:
+            out, res, _ = dechunk_outcome(data)
+            if out == 'returned':
+                orc.check(isinstance(res, bytes), 'dechunk:result-not-bytes')
+            elif out != 'rejected':
+                _report(orc, out, focus)
+        except Exception as ex:  # noqa: BLE001
+            return exc_result(orc, ex, 'harness')
+        return orc.result()
+
+
 # ================================================================================================ reader: request / response body
 
 GZ_ABC = CompressionHandler.compress_payload('gzip', b'abc')
